@@ -99,10 +99,11 @@ def norm_index(it, s, i):
     p = it.p
     t = term(i)
     n = s.n
-    if not p.spec_mode:
-        if not p.truth(mk(z3.And(t >= -n, t < n))):
-            raise p.pyexc('IndexError')
-    j = z3.simplify(z3.If(t < 0, t + n, t))
+    if p.spec_mode:
+        return z3.simplify(t)        # specifications index with non-negative positions only (no wrap)
+    if not p.truth(mk(z3.And(t >= -n, t < n))):
+        raise p.pyexc('IndexError')
+    j = z3.simplify(t + n) if p.truth(mk(t < 0)) else z3.simplify(t)
     p.note_idx(j)
     return j
 
